@@ -49,6 +49,15 @@ func (fr *frame) loopEnv(st *PState, b *ssa.BasicBlock) *SpecEnv {
 		vars["it_n"] = it.N
 		vars["it_seq"] = it.Seq
 	}
+	for name, res := range st.callRes {
+		if tv, ok := res.(*TupleVal); ok {
+			for i, e := range tv.Elems {
+				vars[fmt.Sprintf("res_%s_%d", name, i)] = e
+			}
+		} else {
+			vars["res_"+name+"_0"] = res
+		}
+	}
 	for _, x := range st.env {
 		switch it := x.(type) {
 		case *RangeVal:
